@@ -1,1 +1,122 @@
+(* C20 - Deferred matchers classify fired/failed/unfired without firing anything (PARTIAL: Twisted's
+   Deferred and its unhandled-error logging are a model, Model/Deferred.v, validated by correspondence).
+   Only statements; every proof is `exact <lemma of Proof/C20.v>`.
+   [good d] is the invariant of every Deferred state a history can reach (C20_reachable). *)
 From TT Require Import Lib.Base Model.Deferred Model.DeferredMatchers Spec.C20 Corr.C20 Proof.C20.
+
+(* The model meets the whole statement, for every history (any length, any order of match / fire / fail /
+   addCallbacks / pause / unpause / chained Deferred firing / extract_result, any callbacks, any nesting of
+   inner matchers) and every SynchronousDeferredRunTest stage.  No well-formedness side condition. *)
+Theorem C20_holds : forall i : input, spec_okb i (model i) = true.
+Proof. exact model_meets_spec. Qed.
+Print Assumptions C20_holds.
+
+(* ... and the executable statement implies the readable one (Spec.C20.Spec). *)
+Theorem C20_statement : forall i o, spec_okb i o = true -> Spec i o.
+Proof. exact spec_okb_sound. Qed.
+Print Assumptions C20_statement.
+
+(* the correspondence compares observations exactly (alpha forgets only the two whole-test event lists
+   of the SynchronousDeferredRunTest cases, keeping whether they are equal) *)
+Theorem C20_obs_eqb : forall a b, obs_eqb a b = true <-> alpha a = alpha b.
+Proof. exact obs_eqb_spec. Qed.
+Print Assumptions C20_obs_eqb.
+
+(* every state reached by any history from a fresh Deferred satisfies the invariant the clauses assume *)
+Theorem C20_reachable : forall ops, good (final_of ops new_deferred []).
+Proof. exact reachable_good. Qed.
+Print Assumptions C20_reachable.
+
+(* classification: exactly one of has_no_result / succeeded(Always) / failed(Always) matches, the one the state names *)
+Theorem C20_trichotomy : forall d lg, good d ->
+  let n := verdict MNoResult d lg in
+  let s := verdict (MSucceeded IAlways) d lg in
+  let f := verdict (MFailed IAlways) d lg in
+  match state_of d with
+  | SUnfired | SWaiting => n = true /\ s = false /\ f = false
+  | SVal _ => n = false /\ s = true /\ f = false
+  | SErr _ => n = false /\ s = false /\ f = true
+  end.
+Proof. exact trichotomy. Qed.
+Print Assumptions C20_trichotomy.
+
+(* succeeded(m) / failed(m) match iff in addition m matches the value / the Failure *)
+Theorem C20_inner : forall m d lg, good d ->
+  (verdict MNoResult d lg = true <-> state_of d = SUnfired \/ state_of d = SWaiting)
+  /\ (verdict (MSucceeded m) d lg = true <-> exists v, state_of d = SVal v /\ inner_match m v = true)
+  /\ (verdict (MFailed m) d lg = true <-> exists e, state_of d = SErr e /\ inner_match m e = true).
+Proof. exact inner_clause. Qed.
+Print Assumptions C20_inner.
+
+Theorem C20_extract : forall d lg, good d ->
+  fst (fst (extract_result d lg)) = expect_extract (state_of d).
+Proof. exact extract_clause. Qed.
+Print Assumptions C20_extract.
+
+(* nothing fired: no callback runs during a match, .called is unchanged, and the state is unchanged
+   unless succeeded()/failed() looked at a failure *)
+Theorem C20_nothing_fired : forall m d lg, good d ->
+  log_after_match m d lg = lg
+  /\ d_called (after_match m d lg) = d_called d
+  /\ (inspects m (state_of d) = false -> state_of (after_match m d lg) = state_of d).
+Proof. exact nothing_fired. Qed.
+Print Assumptions C20_nothing_fired.
+
+(* non-interference: after a match that did not consume a failure, every later operation (firing, adding
+   callbacks, further matches, extract_result ...) observes and produces exactly what it would have
+   without the match: same per-operation observations, same values seen by callbacks, same final
+   state and unhandled-error flag *)
+Theorem C20_passive : forall m d lg rest, good d -> inspects m (state_of d) = false ->
+  obs_of rest (after_match m d lg) lg = obs_of rest d lg
+  /\ log_of rest (after_match m d lg) lg = log_of rest d lg
+  /\ state_of (final_of rest (after_match m d lg) lg) = state_of (final_of rest d lg)
+  /\ d_called (final_of rest (after_match m d lg) lg) = d_called (final_of rest d lg)
+  /\ unhandled (final_of rest (after_match m d lg) lg) = unhandled (final_of rest d lg).
+Proof. exact match_unobservable. Qed.
+Print Assumptions C20_passive.
+
+(* ... and in general: a history shows its callbacks the same values and ends in the same state as the
+   match-free history [erase] (matches deleted; an errback returning None where a failure was inspected) *)
+Theorem C20_passive_history : forall ops d lg, good d ->
+  (forall o, In o (erase ops d lg) -> forall m, o <> OMatch m)
+  /\ log_of (erase ops d lg) d lg = log_of ops d lg
+  /\ state_of (final_of (erase ops d lg) d lg) = state_of (final_of ops d lg)
+  /\ d_called (final_of (erase ops d lg) d lg) = d_called (final_of ops d lg)
+  /\ unhandled (final_of (erase ops d lg) d lg) = unhandled (final_of ops d lg).
+Proof. exact passive. Qed.
+Print Assumptions C20_passive_history.
+
+(* a failure inspected by succeeded()/failed() is handled (not on record for the unhandled-error log);
+   has_no_result() leaves it as it is *)
+Theorem C20_handled : forall m d lg e, good d -> state_of d = SErr e ->
+  match m with
+  | MNoResult => state_of (after_match m d lg) = SErr e /\ unhandled (after_match m d lg) = unhandled d
+  | _ => state_of (after_match m d lg) = SVal 0 /\ handled (after_match m d lg) = true
+  end.
+Proof. exact failure_handled. Qed.
+Print Assumptions C20_handled.
+
+(* SynchronousDeferredRunTest._run_user on a function returning an already-fired Deferred (or returning /
+   raising directly, through maybeDeferred) reports what plain RunTest._run_user reports *)
+Theorem C20_sync_runner : forall s,
+  sync_run_user (fired_stage s) = direct_run_user s
+  /\ sync_run_user (match s with inl v => StReturn v | inr e => StRaise e end) = direct_run_user s.
+Proof. exact sync_runner. Qed.
+Print Assumptions C20_sync_runner.
+
+(* non-vacuity: callbacks before, a match on the unfired Deferred, a chained Deferred, a failure inspected
+   behind it, callbacks after; the recorders see the same with and without the matches; nothing unhandled *)
+Example C20_example :
+  let ops := [OAdd (CRec 1) (CRec 1); OMatch MNoResult; OAdd CWait CPass; OFire 3;
+              OMatch (MSucceeded IAlways); OResume (RErr 2); OMatch (MFailed (INot (IIs 1)));
+              OAdd (CRec 2) (CRec 2)] in
+  match model (IHist ops) with
+  | OHist h => map p_out (h_ops h) = [OutDone; OutMatch true; OutDone; OutDone; OutMatch false; OutDone;
+                                      OutMatch true; OutDone]
+               /\ h_log h = [(1, RVal 3); (2, RVal 0)] /\ h_elog h = h_log h /\ h_unhandled h = false
+               /\ h_eops h = [OAdd (CRec 1) (CRec 1); OAdd CWait CPass; OFire 3; OResume (RErr 2);
+                              OAdd CPass (CConst 0); OAdd (CRec 2) (CRec 2)]
+               /\ spec_okb (IHist ops) (OHist h) = true
+  | _ => False
+  end.
+Proof. vm_compute. repeat split. Qed.
